@@ -3,7 +3,7 @@ from props import matcher_common as mc
 
 NAMESPACE = 'C01'
 LEAN_TARGETS = ['MxV.Props.C01']
-THEOREMS = ['C01_tame', 'C01_reachable', 'C01_schema']
+THEOREMS = ['C01_tame', 'C01_reachable', 'C01_schema', 'C01_tree']
 TRUSTED_BASE = ['Lean 4.33.0 kernel', 'axioms: propext, Quot.sound, Classical.choice only (audited per theorem)',
                 'translator extract/*.py (templates regenerated every run; C03.templates_lang_eq re-decided)',
                 'correspondence harness (real library vs Mfull on all 94 types, vs Msimple on the 68 Tame types)',
@@ -15,7 +15,7 @@ KINDS = ['mixed', 'word', 'worddup', 'perm', 'fwd', 'worddel', 'addonly', 'mixed
 
 
 def run(ctx):
-    return mc.generic_run(ctx, 'C01', KINDS, n_quick=12, n_thorough=150)
+    return mc.generic_run(ctx, 'C01', KINDS, n_quick=12, n_thorough=400)
 
 
 def replay(ctx, payload):
